@@ -113,7 +113,7 @@ def functions_group(relpath, outname, specs, inst_attrs=None, header_extra=''):
                 raise Unsupported('%s.%s: result %s is not a scalar expression' % (relpath, fname, nm))
             from py2coq import free_vars
             fv = free_vars(e)
-            allargs = list(args) + [v for v in fv if v not in args]
+            allargs = list(args) + sorted(v for v in fv if v not in args)
             text += '\n' + emit_function(nm, allargs, e, comment='%s(%s)' % (fname, ', '.join('%s=%s' % (a, b if isinstance(b, str) else b[1]) for a, b in binds)))
             text += '#[global] Hint Unfold %s : epgen.\n' % nm
             js[nm] = {'args': allargs, 'expr': expr_to_json(e), 'python': fname}
